@@ -2,6 +2,7 @@ package props
 
 import (
 	"fmt"
+	"math"
 	"strings"
 
 	"github.com/llir/llvm/ir"
@@ -531,6 +532,15 @@ func c03Constants(r *fw.Rec) {
 		def(constant.NewFloat(types.X86_FP80, 2.0))
 		def(constant.NewFloat(types.FP128, -1.5))
 		def(constant.NewFloat(types.PPC_FP128, 1.0))
+		// signed zeros, values that print in scientific notation with a one-digit mantissa
+		for _, k := range []*types.FloatType{types.Half, types.Float, types.Double} {
+			def(constant.NewFloat(k, math.Copysign(0, -1)))
+			def(constant.NewFloat(k, 0))
+		}
+		for _, v := range []float64{-1e6, 1e6, -2e9, -1e22, 5e-7, -5e-7, -3e10} {
+			def(constant.NewFloat(types.Double, v))
+		}
+		def(constant.NewFloat(types.Float, -1e6))
 		def(constant.NewNull(types.I8Ptr))
 		def(constant.NewUndef(T))
 		def(constant.NewPoison(types.I32))
@@ -621,6 +631,12 @@ func c03ModuleLevel(r *fw.Rec) {
 	f.FuncAttrs = []ir.FuncAttribute{enum.FuncAttrNoUnwind, ir.AttrPair{Key: "k", Value: "v"}}
 	b := f.NewBlock("")
 	b.NewRet(ci(types.I32, 0))
+	// unnamed entities of every kind: LLVM numbers them in the order they are printed
+	m.NewAlias("", g)
+	m.NewIFunc("", res)
+	m.NewAlias("", g)
+	f2 := m.NewFunc("", types.Void)
+	f2.NewBlock("").NewRet(nil)
 	c03CheckModule(r, "module-level", m)
 	c03BlockAddresses(r)
 	c03AddrSpaces(r)
@@ -691,6 +707,35 @@ func c03BlockAddresses(r *fw.Rec) {
 		return
 	}
 	c03CheckModule(r, "blockaddress-of-numbered-block", m)
+	// the same between functions of a module without any global variable
+	m2 := ir.NewModule()
+	mk2 := func(name string) (*ir.Func, *ir.Block) {
+		f := m2.NewFunc(name, types.I32, ir.NewParam("", types.I32))
+		entry := f.NewBlock("")
+		v := entry.NewAdd(f.Params[0], ci(types.I32, 1))
+		target := f.NewBlock("")
+		entry.NewBr(target)
+		target.NewRet(v)
+		return f, target
+	}
+	user2 := m2.NewFunc("user", types.I8Ptr)
+	fb2, tb2 := mk2("later")
+	user2.NewBlock("").NewRet(constant.NewBlockAddress(fb2, tb2))
+	first2, pp2 := printGuard(m2)
+	if pp2 != "" {
+		r.Violate(fw.Violation{Key: "print-panic/blockaddress-of-numbered-block-no-globals", What: firstLine(pp2)})
+		return
+	}
+	r.Eval(1)
+	if ok, msg, err := llvmref.Accepts(first2); err == nil && !ok {
+		r.Violate(fw.Violation{Key: "llvm-rejects/blockaddress-of-numbered-block-no-globals", Input: "c03BlockAddresses", What: "LLVM rejects the first print of a constructed module in which a function takes the address of a numbered block of a later function: " + firstLine(lastDiag(msg)), Observed: first2})
+		return
+	}
+	if second2, _ := printGuard(m2); second2 != first2 {
+		r.Violate(fw.Violation{Key: "second-print-differs/blockaddress-of-numbered-block-no-globals", Input: "c03BlockAddresses", What: "printing the constructed module twice gives two texts: " + firstDiffLines(first2, second2), Expected: first2, Observed: second2})
+		return
+	}
+	c03CheckModule(r, "blockaddress-of-numbered-block-no-globals", m2)
 }
 
 var _ = strings.Contains
